@@ -114,3 +114,21 @@ Theorem C07_syntax_diagnostics_wf :
   ltac:(let t := type of NS.Properties.PARSER.PARSER_syntax_diagnostics_wf in exact t).
 Proof. exact NS.Properties.PARSER.PARSER_syntax_diagnostics_wf. Qed.
 Print Assumptions C07_syntax_diagnostics_wf.
+
+(* ================================================================== round 3: end-to-end composition
+   theories/Pipeline.v assembles lexer -> parser -> named tree -> static rules -> evaluator from SOURCE
+   BYTES (tied to the code by lib/props/pipeline.py on source text).  Statements as in
+   Properties/PIPELINE.v; restated by type so that this property's audit covers them. *)
+Require NS.Properties.PIPELINE.
+
+(* for every valid UTF-8 source the whole front end returns; all spans well formed *)
+Theorem C07_front_total :
+  ltac:(let t := type of NS.Properties.PIPELINE.PIPELINE_front_total in exact t).
+Proof. exact NS.Properties.PIPELINE.PIPELINE_front_total. Qed.
+Print Assumptions C07_front_total.
+
+(* a text with diagnostics is never evaluated *)
+Theorem C07_rejected_not_run :
+  ltac:(let t := type of NS.Properties.PIPELINE.PIPELINE_rejected_not_run in exact t).
+Proof. exact NS.Properties.PIPELINE.PIPELINE_rejected_not_run. Qed.
+Print Assumptions C07_rejected_not_run.
